@@ -574,6 +574,42 @@ class _Alpha(ast.NodeTransformer):
         return node
 
 
+def _scope_bound_loads(f):
+    """Name loads bound by an enclosing comprehension target or lambda parameter: they belong to that
+    inner scope, whatever the statement-level reaching definitions of the same identifier say."""
+    out = set()
+
+    def walk(node, bound):
+        if isinstance(node, (ast.ListComp, ast.SetComp, ast.GeneratorExp, ast.DictComp)):
+            b = set(bound)
+            for i, g in enumerate(node.generators):
+                walk(g.iter, b if i else bound)      # the first iterable is evaluated in the enclosing scope
+                b |= set(target_names(g.target))
+                for c in g.ifs:
+                    walk(c, b)
+            for fld in ('elt', 'key', 'value'):
+                v = getattr(node, fld, None)
+                if v is not None:
+                    walk(v, b)
+            return
+        if isinstance(node, ast.Lambda):
+            a = node.args
+            b = set(bound) | {x.arg for x in a.posonlyargs + a.args + a.kwonlyargs} | \
+                ({a.vararg.arg} if a.vararg else set()) | ({a.kwarg.arg} if a.kwarg else set())
+            for d in a.defaults + [x for x in a.kw_defaults if x is not None]:
+                walk(d, bound)
+            walk(node.body, b)
+            return
+        if isinstance(node, ast.Name):
+            if isinstance(node.ctx, ast.Load) and node.id in bound:
+                out.add(node)
+            return
+        for c in ast.iter_child_nodes(node):
+            walk(c, bound)
+    walk(f, set())
+    return out
+
+
 def _ssa_lite(f):
     """Give every simple definition `x = E` whose uses see no other
     definition of x a fresh name (so that re-used variable names do not hide
@@ -587,8 +623,9 @@ def _ssa_lite(f):
         return f
     pnames = set(params(f))
     uses = {}
+    scoped = _scope_bound_loads(f)
     for n in ast.walk(f):
-        if isinstance(n, ast.Name) and isinstance(n.ctx, ast.Load):
+        if isinstance(n, ast.Name) and isinstance(n.ctx, ast.Load) and n not in scoped:
             try:
                 ds = fi.defs_of_use(n)
             except Exception:
